@@ -1436,7 +1436,8 @@ impl<R: std::io::Read> std::io::Read for SignGenerator<'_, R> {
                     return Ok(0);
                 }
                 State::Error => {
-                    panic!("inconsistent state, panicked before");
+                    // A previous call failed: keep returning an error.
+                    return Err(std::io::Error::other("SignGenerator errored"));
                 }
                 State::Ops {
                     mut ops,
